@@ -39,7 +39,7 @@ theorem speciesFirstToMeshFirst_val {α : Type} [Inhabited α] (v : Vec α) (ns 
     rw [h.2.2 _ hne]
     exact hmf.2 i' s' hi' hs' (by omega)
 
-theorem foldl_add_eq_sum (f : Nat → Nat) (n : Nat) :
+theorem foldl_add_eq_listSum (f : Nat → Nat) (n : Nat) :
     (List.range n).foldl (fun q s => q + f s) 0 = ((List.range n).map f).sum := by
   rw [List.sum_eq_foldl, List.foldl_map]
 
@@ -74,7 +74,7 @@ theorem buildMeshKr_val (n ns nr nenv : Nat) (env : Vec Int) (sub : Vec Nat) (k 
   refine Ok.mono (Vec.wr_nat kr _ _ (by rw [hkr.1]; exact flat2_lt n nr i r hi hr)) (fun kr' h => ⟨h.1.trans hkr.1, fun i' r' hi' hr' hb => ?_⟩)
   by_cases heq : i' = i ∧ r' = r
   · obtain ⟨e1, e2⟩ := heq; subst e1 e2
-    rw [h.2.1, hkv, hq, foldl_add_eq_sum]
+    rw [h.2.1, hkv, hq, foldl_add_eq_listSum]
     show _ = val i' r'
     simp only [val, ← hev, Int.toNat_natCast]
   · have hne : i' * nr + r' ≠ i * nr + r := fun hh => heq (flat2_inj hr' hr hh)
